@@ -20,6 +20,9 @@ from . import doctests as gd
 
 # kind -> (lines, is_expr)   ; stdout / values come from the reference execution
 def stmt_lines(kind, k, ref=None):
+    if kind == 'skipcomment':
+        # as FIRST line it disables the doctest under pytest only; the native runner and `dump` keep it
+        return ['# pytest.skip is not needed here']
     if kind == 'kwcomment':
         # an ordinary comment that merely STARTS with a word which, on the FIRST line only, disables a doctest
         return ['# %s inputs are reported below (%d)' % (['failing', 'Disable', 'script', 'UNSTABLE', 'slow_doctest'][k % 5], k)]
@@ -95,11 +98,11 @@ def value_want(s):
 
 
 EXPR_KINDS = {'print', 'expr', 'strexpr', 'both', 'multiexpr', 'multiprint', 'awaitexpr'} | VALUE_KINDS
-SINGLE_LINE = {'kwcomment', 'raise', 'printraise', 'callraise', 'assign', 'print', 'expr', 'strexpr', 'both', 'print2', 'semicolon', 'await', 'awaitexpr', 'comment',
+SINGLE_LINE = {'kwcomment', 'skipcomment', 'raise', 'printraise', 'callraise', 'assign', 'print', 'expr', 'strexpr', 'both', 'print2', 'semicolon', 'await', 'awaitexpr', 'comment',
                'starimport', 'directive'} | VALUE_KINDS
 COMPOUND = {'compoundraise', 'compound', 'forloop', 'classdef', 'decorated', 'decorated2', 'asyncdef', 'deffn', 'with', 'corodef', 'gendef', 'agendef',
             'awaitabledef'}
-NO_TRACE = {'comment', 'kwcomment', 'starimport', 'directive'}
+NO_TRACE = {'comment', 'kwcomment', 'skipcomment', 'starimport', 'directive'}
 # statements that RAISE (some after writing): kind -> last line of format_exception_only
 RAISE_KINDS = {'raise': 'ValueError: m%d', 'printraise': 'ValueError: m%d', 'callraise': "KeyError: 'b%d'",
                'compoundraise': 'ValueError: m%d'}
@@ -364,7 +367,12 @@ def ignored_block_header(rng):
         out.append('    >>> not_run_%d()' % i)
         for j in range(rng.randint(0, 3)):
             out.append('    ignored output %d' % j)
-    if rng.random() < 0.5:
+    r = rng.random()
+    if r < 0.35:
+        # the block is closed by blank line(s) ONLY: what follows is ordinary doctest code again
+        out.extend([''] * rng.randint(1, 2))
+        return out
+    if r < 0.7:
         out.append('')
     out.append('Usage text.')
     return out
@@ -418,6 +426,8 @@ def gen_program(rng, max_len=7, allow_await=True, allow_star=False, allow_direct
         header = []
     if rng.random() < 0.2:
         header = ignored_block_header(rng)
+    if rng.random() < 0.06:
+        stmts.insert(0, Stmt('skipcomment', 1000, 'new'))
     prog = Program(stmts, indent, header)
     if wants:
         place_wants(prog, rng)
